@@ -62,7 +62,7 @@ NOUNS = ['x', 'y', 'z', 'foo', 'bar', 'baz', 'tommy', 'gina', 'heart', 'soul', '
          'dream', 'world', 'love', 'thunder', 'lightning', 'whiskey', 'rebel', 'angel', 'devil',
          'road', 'guitar', 'crowd', 'city', 'river', 'ocean', 'desire', 'union', 'counter',
          'limit', 'total', 'result', 'value', 'index', 'queue', 'stack', 'names', 'things',
-         'été', 'señor', 'müller', 'straße', 'ångström']
+         'été', 'señor', 'müller', 'straße', 'ångström', 'İstanbul', 'groẞ', '\u212aelvin', '\u212bngström', 'Ωmega']
 NOUNS = [w for w in NOUNS if w not in KEYWORDS]
 
 BINOPS = ['plus', 'minus', 'multiply', 'divide', 'and', 'or', 'nor', 'eq', 'noteq',
@@ -783,7 +783,7 @@ class Speller:
             op = e[1]
             lhs = self.expr(e[2])
             if len(e) > 4 and e[4] == 'is':
-                isw = [self.kw('Is')]
+                isw = self.is_word_(lhs)
                 if op == 'eq':
                     mid = []
                 elif op == 'noteq':
@@ -833,7 +833,7 @@ class Speller:
                                'multiply': 'Multiply', 'divide': 'Divide'}[s[2]])]
             return [self.kw('Let')] + self.lhs(s[1]) + [self.kw('Be')] + op + self.oplist(s[3]), None
         if t == 'pnum':
-            isw = [self.kw('Is')]
+            isw = self.is_word_(self.lhs(s[1]))
             if s[2][0] == 'pexpr':
                 e = s[2][1]
                 if e[0] == 'un':
@@ -904,9 +904,22 @@ class Speller:
             return self.name(s[1]) + [self.kw('Taking')] + self.args(s[2]), None
         raise ValueError(s)
 
+    def is_word_(self, toks):
+        """`is` after the given tokens: a keyword alias, or — when the preceding token is a word — the
+        apostrophe forms 's / 're (any case after a word, lower case after a number or string)"""
+        last = toks[-1]
+        if self.aliases and self.rng.random() < 0.25:
+            if last[-1].isalpha():
+                return [self.rng.choice(["'s", "'re", "'S", "'RE", "'Re", "'s", "'re"])]
+            if last[-1].isdigit() or last[-1] == '"':
+                return [self.rng.choice(["'s", "'re"])]
+        return [self.kw('Is')]
+
     def gap(self, a, b):
         """separator between tokens a and b"""
         rng = self.rng
+        if b in ("'s", "'re", "'S", "'RE", "'Re"):
+            return ''
         need = (a[-1].isalnum() or a[-1] in '\'"_' or ord(a[-1]) > 127) and \
                (b[0].isalnum() or b[0] in '\'"_' or ord(b[0]) > 127)
         # `<` `>` followed by `=` would fuse; symbols may abut words
